@@ -227,8 +227,11 @@ def round_trip(fams, fam, m, mech, seed):
     """returns the restored bundle"""
     import torch
     model, lik = m["model"], m["lik"]
-    if mech == "state_dict":
+    if mech in ("state_dict", "state_dict_into_used"):
         fresh = fams[fam](seed + 1000)                     # same architecture, different construction seed / hyperparameters
+        if mech == "state_dict_into_used":
+            # the receiving model has already predicted in eval mode with ITS parameters: loading must not leave those caches in effect
+            to_save_point(fresh, "eval_predicted")
         buf = io.BytesIO()
         torch.save({"model": model.state_dict(), "lik": lik.state_dict()}, buf)
         buf.seek(0)
@@ -285,7 +288,7 @@ def _worker(item):
             if k not in o2:
                 bad.append("%s missing" % k)
                 continue
-            if mech == "state_dict":
+            if mech.startswith("state_dict"):
                 good, why = core.close(o2[k], o1[k], 1e-12, 1e-13)
             else:
                 good = o1[k].shape == o2[k].shape and torch.equal(o1[k], o2[k])
@@ -375,6 +378,8 @@ def run(ck):
     mechs = ["state_dict", "pickle", "deepcopy"]
     cases = []
     for f in fams:
+        if f not in ("exact_rff_lazy",):
+            cases.append(dict(fam=f, point="eval_predicted", mech="state_dict_into_used", seed=ck.seed + 3))
         for p, mch in itertools.product(points, mechs):
             if not thorough and p == "fresh" and mch != "state_dict":
                 continue
